@@ -7,6 +7,9 @@ import FrappyProofs.Lemmas.ActivateTables
 import FrappyProofs.Lemmas.ActivateMatch
 import FrappyProofs.Lemmas.ActivateLossExplicit
 import FrappyProofs.Lemmas.ActivateExported
+import FrappyProofs.Lemmas.ActivateDeadlock
+import FrappyProofs.Lemmas.ActivateCache
+import FrappyProofs.Lemmas.ActivateCall
 import FrappyModel.Generated.C08
 /-
 C08 — property theorems (nothing but property theorems and their non-vacuity examples).
@@ -111,7 +114,7 @@ theorem others_unaffected (cfg : Cfg) (σ σ' : State) (a : Act) : OthersUnaffec
   · rename_i c hc
     exact others_stepH cfg σ σ' c c' m p (by intro h; subst h; exact hne hc) hs
   · rename_i k hk
-    obtain ⟨_, _, _, _, f5, f6, _⟩ := stepU_frame cfg σ σ' k a.arg hs
+    obtain ⟨_, _, _, _, f5, f6, _⟩ := stepU_frame cfg σ σ' k a.arg (stepUG_some hs)
     simp [listens, f5, f6]
 
 /-- "The scopes of other connections are unaffected", on the tables themselves: an action changes no row of
@@ -124,7 +127,7 @@ theorem tables_others_unaffected (cfg : Cfg) (σ σ' : State) (a : Act) : Tables
 /-- The same for a whole broadcast, as equations: the tables after any action of an updater are the tables before. -/
 theorem broadcast_leaves_tables (cfg : Cfg) (σ σ' : State) (k : Nat) (arg : Conn)
     (h : step cfg σ ⟨.u k, arg⟩ = some σ') : σ'.active = σ.active ∧ σ'.subs = σ.subs := by
-  obtain ⟨_, _, _, _, f5, f6, _⟩ := stepU_frame cfg σ σ' k arg h
+  obtain ⟨_, _, _, _, f5, f6, _⟩ := stepU_frame cfg σ σ' k arg (stepUG_some h)
   exact ⟨f5, f6⟩
 
 /-- In every reachable state every table entry — a member of `_active_connections`, a member of `_subscriptions[k]` for
@@ -167,15 +170,132 @@ theorem only_exported_monitor_exact (cfg : Cfg) (tr : List Obs) :
 /-- The lock discipline of the repaired code (`_lock` → `updateLock` → `_subscription_lock`) cannot
 deadlock: in no reachable state with an unfinished thread is every thread blocked. -/
 theorem deadlock_free (cfg : Cfg) (hs : Conn → List Req) (us : Nat → List (Mod × Par × Entry))
-    (cache : Mod → Par → Entry) (σ : State) (h : Reach cfg (init hs us cache) σ)
-    (t : Tid) (ht : finished σ t = false) : ∃ a, (step cfg σ a).isSome = true :=
-  no_deadlock cfg σ (lockInv_reach cfg hs us cache σ h) t ht
+    (cache : Mod → Par → Entry) (hown : ∀ c, us (own c) = []) (σ : State) (h : Reach cfg (init hs us cache) σ)
+    (t : Tid) (ht : finished σ t = false) (hreal : ∀ c, t ≠ .u (own c)) : ∃ a, (step cfg σ a).isSome = true :=
+  no_deadlock cfg σ (lockInv_reach cfg hs us cache σ h) (ownInv_reach cfg hs us cache hown σ h) t ht hreal
 
 /-- Mutual exclusion, as used above: a lock is owned by exactly the thread whose program counter is
 inside the region the lock guards. -/
 theorem locks_exclusive (cfg : Cfg) (hs : Conn → List Req) (us : Nat → List (Mod × Par × Entry))
     (cache : Mod → Par → Entry) (σ : State) (h : Reach cfg (init hs us cache) σ) : LockInv σ :=
   lockInv_reach cfg hs us cache σ h
+
+/-! ### round 4: the cache with its time stamps, omitted announcements, updates produced by `read` / `change` requests -/
+
+/-- "… the last message it holds for a parameter equals the node's cache once things are quiet", with the node's cache itself
+(`σ.cache`: value or error class AND time stamp of every parameter) instead of the cache reconstructed from the trace: in every
+reachable quiet state the last update a connection holds for a parameter firmly in scope IS the entry the node holds — its
+qualifier `t` included.  (The harness hands the real node's final cache to the same monitor, `quiescentBadNow`.) -/
+theorem quiescent_last_eq_node_cache (cfg : Cfg) (hs : Conn → List Req) (us : Nat → List (Mod × Par × Entry))
+    (cache : Mod → Par → Entry) (σ : State) (h : Reach cfg (init hs us cache) σ) :
+    QuiescentLastEq cfg σ.cache σ.trace := by
+  have h1 := quiescent_last_eq_cache cfg hs us cache σ h
+  rw [← cacheAfter_is_cache cfg hs us cache σ h]
+  exact h1
+
+/-- The cache changes only by a store that is in the trace: any action either leaves the whole cache — every value, error
+class and time stamp — as it is and appends no `emit` event, or it is the store of an announced assignment: it appends
+`emit k m p e`, `m:p` now holds exactly `e`, and nothing else changed.  No request-thread action changes the cache. -/
+theorem cache_changes_only_by_store (cfg : Cfg) (σ σ' : State) (a : Act) (h : step cfg σ a = some σ') :
+    (σ'.cache = σ.cache ∧ ∀ u m p e, σ'.trace ≠ σ.trace ++ [.emit u m p e] ∨ a.t ≠ .u u) ∨
+    ∃ k m p e, a.t = .u k ∧ σ'.trace = σ.trace ++ [.emit k m p e] ∧ emits cfg m p (σ.cache m p) e = true ∧
+      storedAt σ.cache σ'.cache m p e := by
+  unfold step at h
+  split at h
+  · rename_i c hc
+    left
+    refine ⟨cache_stepH cfg σ σ' c h, ?_⟩
+    intro u m p e; right; rw [hc]; simp
+  · rename_i k hk
+    rcases cache_stepU cfg σ σ' k a.arg (stepUG_some h) with ⟨h1, h2⟩ | ⟨m, p, e, h1, h2, h3⟩
+    · left; exact ⟨h1, fun u m p e => Or.inl (h2 u m p e)⟩
+    · right; exact ⟨k, m, p, e, hk, h1, h2, h3⟩
+
+/-- An announcement that is omitted — a repeated identical error, an unchanged value inside the parameter's omit window, a
+parameter that is not exported — stores nothing: value, error state and TIME STAMP of the entry stay as they are and no event
+is produced (so what the connections hold stays equal to the cache). -/
+theorem omitted_announcement_stores_nothing (cfg : Cfg) (σ σ' : State) (k : Nat) (arg : Conn) (m : Mod) (p : Par) (e : Entry)
+    (rest : List (Mod × Par × Entry)) (hpc : σ.upc k = .idle) (hsc : σ.uscript k = (m, p, e) :: rest)
+    (hem : emits cfg m p (σ.cache m p) e = false) (hs : step cfg σ ⟨.u k, arg⟩ = some σ') :
+    σ'.cache = σ.cache ∧ σ'.trace = σ.trace :=
+  omitted_stores_nothing cfg σ σ' k arg m p e rest hpc hsc hem (stepUG_some hs)
+
+/-- The omit window, exactly as `announceUpdate` computes it (`not changed and timestamp < (pobj.timestamp or 0) +
+omit_unchanged_within`): the same value again for an exported parameter is announced iff its time stamp is at least the
+window later than the stored one — also for a window that ends during the run, a window of 0 and time stamps that go back;
+a different value, and any value after an error, is always announced; an error is announced iff it is not the same class. -/
+theorem omit_window_exact (cfg : Cfg) (m : Mod) (p : Par) (hx : exported cfg m p = true) (v v' : Int) (t t' k k' : Nat) :
+    emits cfg m p (.val v t') (.val v t) = decide (t' + cfg.omitWithin m p ≤ t) ∧
+    (v' ≠ v → emits cfg m p (.val v' t') (.val v t) = true) ∧
+    emits cfg m p (.err k t') (.val v t) = true ∧
+    emits cfg m p (.val v t') (.err k t) = true ∧
+    emits cfg m p (.err k' t') (.err k t) = decide (k' ≠ k) := by
+  refine ⟨?_, ?_, ?_, ?_, ?_⟩
+  · by_cases h : t < t' + cfg.omitWithin m p
+    · simp [emits, omitted, hx, h, Nat.not_le.mpr h]
+    · simp [emits, omitted, hx, h, Nat.not_lt.mp h]
+  · intro hv; simp [emits, omitted, hx, hv]
+  · simp [emits, omitted, hx]
+  · simp [emits, sameErr, hx]
+  · by_cases hk : k' = k <;> simp [emits, sameErr, hx, hk]
+
+/-- Updates produced by a connection's own `read` / `change` request.  The announcement of such a request is run by the updater
+slot `own c`; in every reachable state that slot is at rest unless the connection's thread is inside the call — it holds
+`_lock`, its open request in the trace is that `read` / `change` — and the slot never ends.  Hence every property theorem
+above (`no_loss`, `snapshot_complete`, `quiescent_last_eq_cache`, `silent_after_deactivate`, `only_exported`, …), which holds
+for the events of all updater slots, holds for the updates a request produces: in particular the requester itself, when the
+parameter lies in its firmly-in-force scope, has been sent the value when the announcement returns (`no_loss` for `u = own c`). -/
+theorem request_update_within_request (cfg : Cfg) (hs : Conn → List Req) (us : Nat → List (Mod × Par × Entry))
+    (cache : Mod → Par → Entry) (hown : ∀ c, us (own c) = []) (σ : State) (h : Reach cfg (init hs us cache) σ) (c : Conn)
+    (hbusy : slotIdle σ (own c) = false) :
+    σ.disp = some c ∧ ∃ w m p e, matchMon.after matchMon.init σ.trace c = some (.rw w m p e) := by
+  have hO := ownInv_reach cfg hs us cache hown σ h
+  have hL := lockInv_reach cfg hs us cache σ h
+  have hM := matchInv_reach cfg hs us cache σ h
+  have hin : inCall (σ.hpc c) = true := by
+    cases hc : inCall (σ.hpc c) with
+    | true => rfl
+    | false => rw [hO.rest c hc] at hbusy; cases hbusy
+  refine ⟨(hL.disp c).1 (by cases hpc : σ.hpc c <;> simp_all [inCall]), ?_⟩
+  obtain ⟨w, m, p, e, hcur⟩ := inCall_curReq hin
+  exact ⟨w, m, p, e, by rw [← hcur]; exact hM.cur c⟩
+
+/-- The same on the trace (`OwnStores`, index form): every store made by the updater slot of connection `c` — every
+`emit (own c) m p e` at position `i` — lies inside a `read` / `change` request of `c` for that very parameter, and the entry
+stored is the one the request's driver call produced: the request open for `c` after the first `i` events is `read m:p` /
+`change m:p` with result `e`.  So a request announces nothing but its own parameter, once, with the value it read / wrote. -/
+theorem request_stores_what_the_request_says (cfg : Cfg) (hs : Conn → List Req) (us : Nat → List (Mod × Par × Entry))
+    (cache : Mod → Par → Entry) (hown : ∀ c, us (own c) = []) (σ : State) (h : Reach cfg (init hs us cache) σ) :
+    OwnStores σ.trace :=
+  ownStores_reach cfg hs us cache hown σ h
+
+/-- The checks in front of the driver call (`_getParameterValue` / `_setParameterValue`, transcribed as `rwKindOf`): a request is
+refused before anything happens exactly when the specifier names no parameter of any module of the node, or it is a change of a
+constant / read-only parameter; it reaches the driver — and may produce an update — exactly when it is a change that is not
+refused, or a read of a non-constant parameter whose class defines `read_<p>`. -/
+theorem request_checks (look : Mod → Par → Option ParInfo) (w : Bool) (m : Mod) (p : Par) :
+    (rwKindOf look w m p = .refuse ↔ look m p = none ∨ ∃ i, look m p = some i ∧ w = true ∧ (i.constant = true ∨ i.readonly = true)) ∧
+    (rwKindOf look w m p = .calls ↔ ∃ i, look m p = some i ∧
+      ((w = true ∧ i.constant = false ∧ i.readonly = false) ∨ (w = false ∧ i.constant = false ∧ i.hasRead = true))) := by
+  unfold rwKindOf
+  cases hl : look m p with
+  | none => simp
+  | some i =>
+    cases w <;> cases hc : i.constant <;> cases hr : i.readonly <;> cases hh : i.hasRead <;> simp [hc, hr, hh]
+
+/-- A request the handler refuses as malformed on its first lines (`activate` / `deactivate` / `read` with data, `read` /
+`change` without specifier) does nothing: once it holds `_lock` its only continuation is the error reply — tables, cache and
+trace are untouched — and it ends no activation (`ends`), whatever it names. -/
+theorem malformed_request_refused (cfg : Cfg) (σ : State) (c : Conn) (a s : Name) (hpc : σ.hpc c = .start (.malformed a s))
+    (hd : σ.disp = none) :
+    (∃ σ', step cfg σ ⟨.h c, 0⟩ = some σ' ∧ σ'.hpc c = .relDisp (.malformed a s) false ∧ σ'.active = σ.active ∧
+      σ'.subs = σ.subs ∧ σ'.cache = σ.cache ∧ σ'.trace = σ.trace) ∧ ∀ x, ends (.malformed a s) x = false := by
+  constructor
+  · have h : step cfg σ ⟨.h c, 0⟩ =
+        some { σ with disp := some c, hpc := set σ.hpc c (.relDisp (.malformed a s) false) } := by
+      simp [step, stepH, hpc, hd, validReq]
+    exact ⟨_, h, by simp, rfl, rfl, rfl, rfl⟩
+  · intro x; rfl
 
 /-- The string tests of `Dispatcher.unsubscribe` (`':' in`, `startswith(f'{eventname}:')`, exact key) remove exactly the
 subscriptions the deactivation matches — for ALL names, in particular names that are string prefixes of one another
@@ -219,22 +339,22 @@ def mT2 : Mod := ⟨['T', '2'], by decide⟩
 def pTarget : Par := ['t', 'a', 'r', 'g', 'e', 't']
 def pTargetMax : Par := pTarget ++ ['_', 'm', 'a', 'x']
 
-def exCfg : Cfg := ⟨[mT, mT2], fun _ => [pTarget, pTargetMax], [1], fun _ => false, fun _ _ => false⟩
+def exCfg : Cfg := ⟨[mT, mT2], fun _ => [pTarget, pTargetMax], [1], fun _ => false, fun _ _ => 0, fun _ _ _ => .calls⟩
 def exInit : State :=
   init (fun c => if c = 1 then [.activate (.par mT pTarget), .deactivate (.par mT pTarget)] else [])
-       (fun k => if k = 1 then [(mT, pTarget, .val 7), (mT, pTarget, .val 5)] else []) (fun _ _ => .val 0)
+       (fun k => if k = 2 then [(mT, pTarget, .val 7 7), (mT, pTarget, .val 5 5)] else []) (fun _ _ => .val 0 0)
 
 /-- the updater stores 7 and has selected its listeners while the connection is active; the deactivation has
 to wait for the delivery -/
 def exActs : List Act :=
   [⟨.h 1, 0⟩, ⟨.h 1, 0⟩, ⟨.h 1, 0⟩, ⟨.h 1, 0⟩,       -- marker, disp, register, release sub
-   ⟨.u 1, 0⟩, ⟨.u 1, 0⟩,                              -- store 7, select listeners (holds sub)
-   ⟨.u 1, 1⟩, ⟨.u 1, 0⟩, ⟨.u 1, 0⟩,                   -- send to 1, release sub, release upd
+   ⟨.u 2, 0⟩, ⟨.u 2, 0⟩,                              -- store 7, select listeners (holds sub)
+   ⟨.u 2, 1⟩, ⟨.u 2, 0⟩, ⟨.u 2, 0⟩,                   -- send to 1, release sub, release upd
    ⟨.h 1, 0⟩, ⟨.h 1, 0⟩, ⟨.h 1, 0⟩, ⟨.h 1, 0⟩, ⟨.h 1, 0⟩, ⟨.h 1, 0⟩]  -- snapshot, release, reply
 
 example : ((run exCfg exInit exActs).map (fun σ => σ.trace)) =
-    some [.reqStart 1 (.activate (.par mT pTarget)), .emit 1 mT pTarget (.val 7), .deliver 1 mT pTarget (.val 7), .emitDone 1,
-          .deliver 1 mT pTarget (.val 7), .reply 1 (.activate (.par mT pTarget)) true] := by decide
+    some [.reqStart 1 (.activate (.par mT pTarget)), .emit 2 mT pTarget (.val 7 7), .deliver 1 mT pTarget (.val 7 7), .emitDone 2,
+          .deliver 1 mT pTarget (.val 7 7), .reply 1 (.activate (.par mT pTarget)) true] := by decide
 
 example : ∃ σ, Reach exCfg exInit σ ∧ σ.trace.length = 6 ∧ finished σ (.h 1) = false := by
   cases h : run exCfg exInit exActs with
@@ -255,33 +375,33 @@ connection 1 stays activated, the updater's value 7 was emitted after the `activ
 connection, and is the last message it holds -/
 def exInit2 : State :=
   init (fun c => if c = 1 then [.activate (.par mT pTarget)] else [])
-       (fun k => if k = 1 then [(mT, pTarget, .val 7)] else []) (fun _ _ => .val 0)
+       (fun k => if k = 2 then [(mT, pTarget, .val 7 7)] else []) (fun _ _ => .val 0 0)
 
 def exActs2 : List Act :=
-  (List.replicate 10 ⟨.h 1, 0⟩) ++ [⟨.u 1, 0⟩, ⟨.u 1, 0⟩, ⟨.u 1, 1⟩, ⟨.u 1, 0⟩, ⟨.u 1, 0⟩, ⟨.u 1, 0⟩, ⟨.h 1, 0⟩]
+  (List.replicate 10 ⟨.h 1, 0⟩) ++ [⟨.u 2, 0⟩, ⟨.u 2, 0⟩, ⟨.u 2, 1⟩, ⟨.u 2, 0⟩, ⟨.u 2, 0⟩, ⟨.u 2, 0⟩, ⟨.h 1, 0⟩]
 
 example : ((run exCfg exInit2 exActs2).map (fun σ =>
       (quietB σ.trace, coveredBy (firmAfter σ.trace 1) mT pTarget, lastDelivered σ.trace 1 mT pTarget, σ.cache mT pTarget,
-       finished σ (.h 1), finished σ (.u 1), σ.trace.length))) =
-    some (true, true, some (.val 7), .val 7, true, true, 6) := by rfl
+       finished σ (.h 1), finished σ (.u 2), σ.trace.length))) =
+    some (true, true, some (.val 7 7), .val 7 7, true, true, 6) := by rfl
 
 /-- `snapshot_complete_explicit` / `replies_match` are about something: the reachable trace of `exActs2` has an `active`
 reply at position 2 (marker at 0, the snapshot item at 1) and a broadcast delivery at position 4 -/
 example : ((run exCfg exInit2 exActs2).map (fun σ => (σ.trace[0]?, σ.trace[1]?, σ.trace[2]?, σ.trace[4]?,
-      matchMon.accepts σ.trace, (snapMon exCfg (fun _ _ => .val 0)).accepts σ.trace))) =
-    some (some (.reqStart 1 (.activate (.par mT pTarget))), some (.deliver 1 mT pTarget (.val 0)),
-          some (.reply 1 (.activate (.par mT pTarget)) true), some (.deliver 1 mT pTarget (.val 7)), true, true) := by rfl
+      matchMon.accepts σ.trace, (snapMon exCfg (fun _ _ => .val 0 0)).accepts σ.trace))) =
+    some (some (.reqStart 1 (.activate (.par mT pTarget))), some (.deliver 1 mT pTarget (.val 0 0)),
+          some (.reply 1 (.activate (.par mT pTarget)) true), some (.deliver 1 mT pTarget (.val 7 7)), true, true) := by rfl
 
 /-- `no_loss_explicit` is about something: in the same trace the store is at position 3, the return at 5, connection 1 is
 firmly covered at the store, and the delivery is at position 4 -/
 example : ((run exCfg exInit2 exActs2).map (fun σ => (σ.trace[3]?, σ.trace[4]?, σ.trace[5]?,
       coveredBy (firmAfter (σ.trace.take 3) 1) mT pTarget, (lossMon exCfg).accepts σ.trace))) =
-    some (some (.emit 1 mT pTarget (.val 7)), some (.deliver 1 mT pTarget (.val 7)), some (.emitDone 1), true, true) := by rfl
+    some (some (.emit 2 mT pTarget (.val 7 7)), some (.deliver 1 mT pTarget (.val 7 7)), some (.emitDone 2), true, true) := by rfl
 
 /-- the loss monitor is not trivially true: the same trace without the delivery is rejected -/
 example : (lossMon exCfg).accepts
-    [.reqStart 1 (.activate (.par mT pTarget)), .deliver 1 mT pTarget (.val 0), .reply 1 (.activate (.par mT pTarget)) true,
-     .emit 1 mT pTarget (.val 7), .emitDone 1] = false := by rfl
+    [.reqStart 1 (.activate (.par mT pTarget)), .deliver 1 mT pTarget (.val 0 0), .reply 1 (.activate (.par mT pTarget)) true,
+     .emit 2 mT pTarget (.val 7 7), .emitDone 2] = false := by rfl
 
 /-- the match monitor is not trivially true: a reply that answers another request than the open one is rejected -/
 example : matchMon.accepts [.reqStart 1 (.activate .all), .reply 1 (.deactivate .all) true] = false := by decide
@@ -290,50 +410,50 @@ example : matchMon.accepts [.reqStart 1 (.activate .all), .reply 1 (.deactivate 
 of `T:target_max` emitted afterwards still reaches it (the seeded `startswith(eventname)` mutant loses it) -/
 def exInit3 : State :=
   init (fun c => if c = 1 then [.activate (.par mT pTarget), .activate (.par mT pTargetMax), .deactivate (.par mT pTarget)] else [])
-       (fun k => if k = 1 then [(mT, pTargetMax, .val 3)] else []) (fun _ _ => .val 0)
+       (fun k => if k = 2 then [(mT, pTargetMax, .val 3 3)] else []) (fun _ _ => .val 0 0)
 
 example : ((run exCfg exInit3 ((List.replicate 26 (⟨.h 1, 0⟩ : Act)) ++
-      [⟨.u 1, 0⟩, ⟨.u 1, 0⟩, ⟨.u 1, 1⟩, ⟨.u 1, 0⟩, ⟨.u 1, 0⟩, ⟨.u 1, 0⟩, ⟨.h 1, 0⟩])).map (fun σ =>
+      [⟨.u 2, 0⟩, ⟨.u 2, 0⟩, ⟨.u 2, 1⟩, ⟨.u 2, 0⟩, ⟨.u 2, 0⟩, ⟨.u 2, 0⟩, ⟨.h 1, 0⟩])).map (fun σ =>
       (lastDelivered σ.trace 1 mT pTargetMax, listens σ 1 mT pTargetMax, listens σ 1 mT pTarget,
-       finished σ (.h 1), finished σ (.u 1)))) =
-    some (some (.val 3), true, false, true, true) := by rfl
+       finished σ (.h 1), finished σ (.u 2)))) =
+    some (some (.val 3 3), true, false, true, true) := by rfl
 
 /-- remote logging broken: `*IDN?` is answered with an error report, the activation is gone all the same and the update
 emitted afterwards is not delivered -/
-def exCfgBroken : Cfg := ⟨[mT], fun _ => [pTarget], [1], fun _ => true, fun _ _ => false⟩
+def exCfgBroken : Cfg := ⟨[mT], fun _ => [pTarget], [1], fun _ => true, fun _ _ => 0, fun _ _ _ => .calls⟩
 def exInit4 : State :=
   init (fun c => if c = 1 then [.activate .all, .ident] else [])
-       (fun k => if k = 1 then [(mT, pTarget, .val 3)] else []) (fun _ _ => .val 0)
+       (fun k => if k = 2 then [(mT, pTarget, .val 3 3)] else []) (fun _ _ => .val 0 0)
 
 example : ((run exCfgBroken exInit4 ((List.replicate 16 (⟨.h 1, 0⟩ : Act)) ++
-      [⟨.u 1, 0⟩, ⟨.u 1, 0⟩, ⟨.u 1, 0⟩, ⟨.u 1, 0⟩, ⟨.u 1, 0⟩, ⟨.h 1, 0⟩])).map (fun σ =>
-      (σ.trace.drop 3, listens σ 1 mT pTarget, finished σ (.h 1), finished σ (.u 1)))) =
-    some ([.reqStart 1 .ident, .reply 1 .ident false, .emit 1 mT pTarget (.val 3), .emitDone 1], false, true, true) := by rfl
+      [⟨.u 2, 0⟩, ⟨.u 2, 0⟩, ⟨.u 2, 0⟩, ⟨.u 2, 0⟩, ⟨.u 2, 0⟩, ⟨.h 1, 0⟩])).map (fun σ =>
+      (σ.trace.drop 3, listens σ 1 mT pTarget, finished σ (.h 1), finished σ (.u 2)))) =
+    some ([.reqStart 1 .ident, .reply 1 .ident false, .emit 2 mT pTarget (.val 3 3), .emitDone 2], false, true, true) := by rfl
 
 /-- two connections: 1 activates `T:target`, 2 activates the whole node, an update of `T:target` goes to both, 2 deactivates,
 the next update goes to 1 only — and between the two the broadcast has left no entry for 2 under `T:target`
 (what the seeded in-place `listeners |= …` does) -/
-def exCfg2 : Cfg := ⟨[mT], fun _ => [pTarget], [1, 2], fun _ => false, fun _ _ => false⟩
+def exCfg2 : Cfg := ⟨[mT], fun _ => [pTarget], [1, 2], fun _ => false, fun _ _ => 0, fun _ _ _ => .calls⟩
 def exInit5 : State :=
   init (fun c => if c = 1 then [.activate (.par mT pTarget)] else if c = 2 then [.activate .all, .deactivate .all] else [])
-       (fun k => if k = 1 then [(mT, pTarget, .val 1), (mT, pTarget, .val 5)] else []) (fun _ _ => .val 0)
+       (fun k => if k = 2 then [(mT, pTarget, .val 1 1), (mT, pTarget, .val 5 5)] else []) (fun _ _ => .val 0 0)
 
 def exActs5a : List Act :=
-  List.replicate 10 ⟨.h 1, 0⟩ ++ List.replicate 10 ⟨.h 2, 0⟩ ++ [⟨.u 1, 0⟩, ⟨.u 1, 0⟩, ⟨.u 1, 1⟩, ⟨.u 1, 2⟩, ⟨.u 1, 0⟩, ⟨.u 1, 0⟩]
+  List.replicate 10 ⟨.h 1, 0⟩ ++ List.replicate 10 ⟨.h 2, 0⟩ ++ [⟨.u 2, 0⟩, ⟨.u 2, 0⟩, ⟨.u 2, 1⟩, ⟨.u 2, 2⟩, ⟨.u 2, 0⟩, ⟨.u 2, 0⟩]
 def exActs5b : List Act :=
-  List.replicate 6 ⟨.h 2, 0⟩ ++ [⟨.u 1, 0⟩, ⟨.u 1, 0⟩, ⟨.u 1, 1⟩, ⟨.u 1, 0⟩, ⟨.u 1, 0⟩]
+  List.replicate 6 ⟨.h 2, 0⟩ ++ [⟨.u 2, 0⟩, ⟨.u 2, 0⟩, ⟨.u 2, 1⟩, ⟨.u 2, 0⟩, ⟨.u 2, 0⟩]
 
 /-- after the first broadcast (both connections were sent the value): the tables hold exactly the two own entries -/
 example : ((run exCfg2 exInit5 exActs5a).map (fun σ =>
       (σ.subs (pkey mT pTarget) 1, σ.subs (pkey mT pTarget) 2, σ.active 1, σ.active 2,
        lastDelivered σ.trace 1 mT pTarget, lastDelivered σ.trace 2 mT pTarget))) =
-    some (true, false, false, true, some (.val 1), some (.val 1)) := by rfl
+    some (true, false, false, true, some (.val 1 1), some (.val 1 1)) := by rfl
 
 /-- after the global `deactivate` of 2 and the second assignment: 1 holds 5, 2 still holds 1 -/
 example : ((run exCfg2 exInit5 (exActs5a ++ exActs5b)).map (fun σ =>
       (σ.subs (pkey mT pTarget) 1, σ.subs (pkey mT pTarget) 2, σ.active 2,
        lastDelivered σ.trace 1 mT pTarget, lastDelivered σ.trace 2 mT pTarget, σ.cache mT pTarget, quietB σ.trace))) =
-    some (true, false, false, some (.val 5), some (.val 1), .val 5, true) := by rfl
+    some (true, false, false, some (.val 5 5), some (.val 1 1), .val 5 5, true) := by rfl
 
 /-- `tables_own` is about something: a reachable state with entries in both tables -/
 example : ∃ σ, Reach exCfg2 exInit5 σ ∧ σ.active 2 = true ∧ σ.subs (pkey mT pTarget) 1 = true ∧
@@ -377,27 +497,140 @@ def mH : Mod := ⟨['H'], by decide⟩
 def pHidden : Par := ['#', 'h']
 def exInit6 : State :=
   init (fun c => if c = 1 then [.activate .all] else [])
-       (fun k => if k = 1 then [(mT, pHidden, .val 4), (mT, pTarget, .val 5), (mH, pTarget, .val 6)] else []) (fun _ _ => .val 0)
+       (fun k => if k = 2 then [(mT, pHidden, .val 4 4), (mT, pTarget, .val 5 5), (mH, pTarget, .val 6 6)] else []) (fun _ _ => .val 0 0)
 
-example : ((run exCfg2 exInit6 ((List.replicate 10 (⟨.h 1, 0⟩ : Act)) ++ [⟨.u 1, 0⟩, ⟨.u 1, 0⟩] ++
-      [⟨.u 1, 0⟩, ⟨.u 1, 0⟩, ⟨.u 1, 1⟩, ⟨.u 1, 0⟩, ⟨.u 1, 0⟩] ++ [⟨.u 1, 0⟩, ⟨.u 1, 0⟩, ⟨.u 1, 0⟩])).map (fun σ =>
-      (σ.trace.drop 3, finished σ (.u 1), σ.trace.all (exportedOk exCfg2)))) =
-    some ([.emit 1 mT pTarget (.val 5), .deliver 1 mT pTarget (.val 5), .emitDone 1], true, true) := by
+example : ((run exCfg2 exInit6 ((List.replicate 10 (⟨.h 1, 0⟩ : Act)) ++ [⟨.u 2, 0⟩, ⟨.u 2, 0⟩] ++
+      [⟨.u 2, 0⟩, ⟨.u 2, 0⟩, ⟨.u 2, 1⟩, ⟨.u 2, 0⟩, ⟨.u 2, 0⟩] ++ [⟨.u 2, 0⟩, ⟨.u 2, 0⟩, ⟨.u 2, 0⟩])).map (fun σ =>
+      (σ.trace.drop 3, finished σ (.u 2), σ.trace.all (exportedOk exCfg2)))) =
+    some ([.emit 2 mT pTarget (.val 5 5), .deliver 1 mT pTarget (.val 5 5), .emitDone 2], true, true) := by
   decide +kernel
 
 /-- … and the monitor rejects a delivery of the hidden parameter -/
-example : [Obs.reqStart 1 (.activate .all), .deliver 1 mT pHidden (.val 4)].all (exportedOk exCfg2) = false := by decide +kernel
+example : [Obs.reqStart 1 (.activate .all), .deliver 1 mT pHidden (.val 4 4)].all (exportedOk exCfg2) = false := by decide +kernel
 
 /-- the monitors are not trivially true: the pinned tree's log `update 7, inactive, update 5` is rejected … -/
 example : silentMon.accepts
-    [.reqStart 1 (.activate (.par mT pTarget)), .deliver 1 mT pTarget (.val 0), .reply 1 (.activate (.par mT pTarget)) true,
-     .deliver 1 mT pTarget (.val 7), .reqStart 1 (.deactivate (.par mT pTarget)), .reply 1 (.deactivate (.par mT pTarget)) true,
-     .deliver 1 mT pTarget (.val 5)] = false := by decide
+    [.reqStart 1 (.activate (.par mT pTarget)), .deliver 1 mT pTarget (.val 0 0), .reply 1 (.activate (.par mT pTarget)) true,
+     .deliver 1 mT pTarget (.val 7 7), .reqStart 1 (.deactivate (.par mT pTarget)), .reply 1 (.deactivate (.par mT pTarget)) true,
+     .deliver 1 mT pTarget (.val 5 5)] = false := by decide
 
 /-- … and the same log with the late update before the `inactive` reply is accepted -/
 example : silentMon.accepts
-    [.reqStart 1 (.activate (.par mT pTarget)), .deliver 1 mT pTarget (.val 0), .reply 1 (.activate (.par mT pTarget)) true,
-     .deliver 1 mT pTarget (.val 7), .reqStart 1 (.deactivate (.par mT pTarget)), .deliver 1 mT pTarget (.val 5),
+    [.reqStart 1 (.activate (.par mT pTarget)), .deliver 1 mT pTarget (.val 0 0), .reply 1 (.activate (.par mT pTarget)) true,
+     .deliver 1 mT pTarget (.val 7 7), .reqStart 1 (.deactivate (.par mT pTarget)), .deliver 1 mT pTarget (.val 5 5),
      .reply 1 (.deactivate (.par mT pTarget)) true] = true := by decide
+
+/-! ### round 4 examples -/
+
+/-- connection 1 activates `T:target` and then reads it (the driver answers 5 at time 3): its own request thread stores the
+value, delivers it to the connection itself, the announcement returns, the reply follows -/
+def exInit7 : State :=
+  init (fun c => if c = 1 then [.activate (.par mT pTarget), .rw false mT pTarget (.val 5 3)] else []) (fun _ => []) (fun _ _ => .val 0 0)
+
+def exActs7 : List Act :=
+  List.replicate 13 ⟨.h 1, 0⟩ ++ [⟨.u 3, 0⟩, ⟨.u 3, 0⟩, ⟨.u 3, 1⟩, ⟨.u 3, 0⟩, ⟨.u 3, 0⟩] ++ List.replicate 4 ⟨.h 1, 0⟩
+
+example : ((run exCfg exInit7 exActs7).map (fun σ => (σ.trace.drop 3, σ.cache mT pTarget, finished σ (.h 1),
+      (lossMon exCfg).accepts σ.trace, quiescentBadNow exCfg σ.cache σ.trace))) =
+    some ([.reqStart 1 (.rw false mT pTarget (.val 5 3)), .emit 3 mT pTarget (.val 5 3), .deliver 1 mT pTarget (.val 5 3),
+           .emitDone 3, .reply 1 (.rw false mT pTarget (.val 5 3)) true], .val 5 3, true, true, none) := by
+  rfl
+
+/-- `request_update_within_request` is about something: in the middle of that run the slot `own 1 = 3` is busy, connection 1
+holds `_lock` and its open request is the `read` -/
+example : ((run exCfg exInit7 (exActs7.take 15)).map (fun σ => (slotIdle σ (own 1), σ.disp,
+      matchMon.after matchMon.init σ.trace 1))) = some (false, some 1, some (.rw false mT pTarget (.val 5 3))) := by
+  decide +kernel
+
+/-- `request_stores_what_the_request_says` is about something: in that run the store by slot 3 is at position 4 and the request
+open for connection 1 after the first 4 events is the `read` with that result -/
+example : ((run exCfg exInit7 exActs7).map (fun σ => (σ.trace[4]?, matchMon.after matchMon.init (σ.trace.take 4) 1))) =
+    some (some (.emit 3 mT pTarget (.val 5 3)), some (.rw false mT pTarget (.val 5 3))) := by rfl
+
+/-- the slot cannot run ahead of the request (before the call it is blocked), and the request cannot return before the
+announcement is done -/
+example : (run exCfg exInit7 (List.replicate 12 ⟨.h 1, 0⟩ ++ [⟨.u 3, 0⟩])).isSome = false ∧
+    (run exCfg exInit7 (List.replicate 14 ⟨.h 1, 0⟩)).isSome = false := by decide +kernel
+
+/-- the trace of the seeded "pending read" change (the requester is left out of the listeners of its own read) is rejected by
+the loss monitor and by the quiescence monitor -/
+example : (lossMon exCfg).accepts
+    [.reqStart 1 (.activate (.par mT pTarget)), .deliver 1 mT pTarget (.val 0 0), .reply 1 (.activate (.par mT pTarget)) true,
+     .reqStart 1 (.rw false mT pTarget (.val 5 3)), .emit 3 mT pTarget (.val 5 3), .emitDone 3,
+     .reply 1 (.rw false mT pTarget (.val 5 3)) true] = false ∧
+    (quiescentBadNow exCfg (fun _ _ => .val 5 3)
+    [.reqStart 1 (.activate (.par mT pTarget)), .deliver 1 mT pTarget (.val 0 0), .reply 1 (.activate (.par mT pTarget)) true,
+     .reqStart 1 (.rw false mT pTarget (.val 5 3)), .emit 3 mT pTarget (.val 5 3), .emitDone 3,
+     .reply 1 (.rw false mT pTarget (.val 5 3)) true]).isSome = true := by decide +kernel
+
+/-- `request_checks` on a small table: `T:target` is writable without `read_` function, `T:target_max` read-only with one -/
+example : let look : Mod → Par → Option ParInfo := fun m p =>
+      if m = mT ∧ p = pTarget then some ⟨false, false, false⟩ else if m = mT ∧ p = pTargetMax then some ⟨true, false, true⟩ else none
+    (rwKindOf look true mT pTarget, rwKindOf look false mT pTarget, rwKindOf look true mT pTargetMax,
+     rwKindOf look false mT pTargetMax, rwKindOf look false mT2 pTarget) = (.calls, .plain, .refuse, .calls, .refuse) := by
+  decide +kernel
+
+/-- `deactivate T` with data is refused and ends nothing: the module activation stays in force, the update stored afterwards
+is delivered -/
+def exInit11 : State :=
+  init (fun c => if c = 1 then [.activate (.mod mT), .malformed ['d', 'e', 'a', 'c', 't'] ['T']] else [])
+       (fun k => if k = 2 then [(mT, pTarget, .val 1 1)] else []) (fun _ _ => .val 0 0)
+
+example : ((run exCfg exInit11 (List.replicate 17 ⟨.h 1, 0⟩ ++ [⟨.u 2, 0⟩, ⟨.u 2, 0⟩, ⟨.u 2, 1⟩, ⟨.u 2, 0⟩, ⟨.u 2, 0⟩])).map (fun σ =>
+      (σ.trace.drop 4, finished σ (.h 1), listens σ 1 mT pTarget))) =
+    some ([.reqStart 1 (.malformed ['d', 'e', 'a', 'c', 't'] ['T']), .reply 1 (.malformed ['d', 'e', 'a', 'c', 't'] ['T']) false,
+           .emit 2 mT pTarget (.val 1 1), .deliver 1 mT pTarget (.val 1 1), .emitDone 2], true, true) := by rfl
+
+/-- a `change` takes `accessLock` twice, a `write_` function that raises announces nothing and the reply is an error report -/
+def exInit8 : State :=
+  init (fun c => if c = 1 then [.rw true mT pTarget (.err 0 4)] else []) (fun _ => []) (fun _ _ => .val 0 0)
+
+example : ((run exCfg exInit8 (List.replicate 9 ⟨.h 1, 0⟩)).map (fun σ => (σ.trace, finished σ (.h 1), σ.cache mT pTarget))) =
+    some ([.reqStart 1 (.rw true mT pTarget (.err 0 4)), .reply 1 (.rw true mT pTarget (.err 0 4)) false], true, .val 0 0) := by
+  decide +kernel
+
+/-- the omit window of 3 on `T:target`: the same value 1 at times 1, 2 (inside: omitted, the entry keeps time stamp 1) and
+4 (the window is over: announced) — the hypotheses of `omitted_announcement_stores_nothing` and `cache_changes_only_by_store`
+are met along a reachable run -/
+def exCfgW : Cfg := ⟨[mT], fun _ => [pTarget], [1], fun _ => false, fun _ _ => 3, fun _ _ _ => .calls⟩
+def exInit9 : State :=
+  init (fun c => if c = 1 then [.activate .all] else [])
+       (fun k => if k = 2 then [(mT, pTarget, .val 1 1), (mT, pTarget, .val 1 2), (mT, pTarget, .val 1 4)] else []) (fun _ _ => .val 0 0)
+
+def exActs9a : List Act := List.replicate 10 ⟨.h 1, 0⟩ ++ [⟨.u 2, 0⟩, ⟨.u 2, 0⟩, ⟨.u 2, 1⟩, ⟨.u 2, 0⟩, ⟨.u 2, 0⟩]
+
+example : ((run exCfgW exInit9 exActs9a).map (fun σ => (σ.upc 2, σ.uscript 2, σ.cache mT pTarget,
+      emits exCfgW mT pTarget (σ.cache mT pTarget) (.val 1 2)))) =
+    some (.idle, [(mT, pTarget, .val 1 2), (mT, pTarget, .val 1 4)], .val 1 1, false) := by rfl
+
+example : ((run exCfgW exInit9 (exActs9a ++ [⟨.u 2, 0⟩, ⟨.u 2, 0⟩] ++ [⟨.u 2, 0⟩, ⟨.u 2, 0⟩, ⟨.u 2, 1⟩, ⟨.u 2, 0⟩, ⟨.u 2, 0⟩])).map (fun σ =>
+      (σ.trace.drop 3, σ.cache mT pTarget, lastDelivered σ.trace 1 mT pTarget))) =
+    some ([.emit 2 mT pTarget (.val 1 1), .deliver 1 mT pTarget (.val 1 1), .emitDone 2,
+           .emit 2 mT pTarget (.val 1 4), .deliver 1 mT pTarget (.val 1 4), .emitDone 2], .val 1 4, some (.val 1 4)) := by
+  decide +kernel
+
+/-- what the seeded "refresh the time stamp of an omitted value" change produces — the node holds (1, t = 2) while the
+connection's last message says t = 1 and no store is in the trace — is rejected when the node's cache is given to the monitor -/
+example : (quiescentBadNow exCfgW (fun _ _ => .val 1 2)
+    [.reqStart 1 (.activate .all), .deliver 1 mT pTarget (.val 0 0), .reply 1 (.activate .all) true,
+     .emit 2 mT pTarget (.val 1 1), .deliver 1 mT pTarget (.val 1 1), .emitDone 2]).isSome = true ∧
+    (quiescentBadNow exCfgW (fun _ _ => .val 1 1)
+    [.reqStart 1 (.activate .all), .deliver 1 mT pTarget (.val 0 0), .reply 1 (.activate .all) true,
+     .emit 2 mT pTarget (.val 1 1), .deliver 1 mT pTarget (.val 1 1), .emitDone 2]) = none := by decide +kernel
+
+/-- initial states other than a plain value: the cache holds the start-up state "not initialized" (error class 2, no time
+stamp) for `T:target`; the snapshot of `activate` delivers it like everything else (`snapshot_complete` holds for every initial
+cache), and the monitor rejects a snapshot that leaves it out -/
+def exInit10 : State :=
+  init (fun c => if c = 1 then [.activate (.mod mT)] else []) (fun _ => [])
+       (fun _ p => if p = pTarget then .err 2 0 else .val 0 0)
+
+example : ((run exCfg exInit10 (List.replicate 13 ⟨.h 1, 0⟩)).map (fun σ => σ.trace)) =
+    some [.reqStart 1 (.activate (.mod mT)), .deliver 1 mT pTarget (.err 2 0), .deliver 1 mT pTargetMax (.val 0 0),
+          .reply 1 (.activate (.mod mT)) true] := by decide +kernel
+
+example : (snapMon exCfg (fun _ p => if p = pTarget then .err 2 0 else .val 0 0)).accepts
+    [.reqStart 1 (.activate (.mod mT)), .deliver 1 mT pTargetMax (.val 0 0), .reply 1 (.activate (.mod mT)) true] = false := by
+  decide +kernel
 
 end Frappy.Props.C08
